@@ -96,6 +96,28 @@ def run(ctx):
         ctx.case(tmpl, nontrivial=True)
         if comp:
             ctx.violation({'kind': 'guard-written-in-body-counted'}, f'`{tmpl}` is analysed as a counted loop over {xv}', {'src': tmpl})
+    # ... also right after a well-formed counted loop AT THE SAME SOURCE POSITION has been analysed (anything
+    # remembered per position / per node must not leak from one program to the next), and through the user's
+    # path: strict-mode Analysis.run must refuse the function
+    import re as _re
+    goods = ['int f(int n,int x){ int i; for (i = 0; i < n; i++) { x = x + x; } }'] + \
+            [s_ for s_ in srcs if _re.search(r'for \((\w+) = 0; \1 < (\w+); \1\+\+\) \{', s_)][:ctx.budget(10, 120)]
+    for good in goods:
+        m_ = _re.search(r'for \((\w+) = 0; \1 < (\w+); \1\+\+\) \{', good)
+        X = m_.group(2)
+        bad = good[:m_.end()] + f' {X} = {X} + {X};' + good[m_.end():]
+        try:
+            Analysis.run(astwire.parse(good), strict=True)
+            res_bad = Analysis.run(astwire.parse(bad), strict=True)
+        except Exception as e:
+            ctx.count('guard_twin_raised_' + type(e).__name__)
+            continue
+        ctx.case(('guard-twin', bad), nontrivial=True)
+        ctx.count('guard_twins')
+        if res_bad.relations:
+            ctx.violation({'kind': 'guard-written-in-body-counted', 'after': 'same-position twin'},
+                          f'`{bad}` (guard {X} written in the loop body) is analysed in strict mode after its well-formed twin',
+                          {'src': bad, 'twin_analysed_first': good})
     if ctx.drv is None:
         return
     outs = ctx.drv.batch([p[0] for p in pending])
